@@ -242,6 +242,32 @@ end
 def renderRoot (es : Entries) : String :=
   " ".intercalate (renderEs "" (sortEs es))
 
+/-! input sanity: listings below a job directory come in `dircmp`'s (sorted) order, names are unique -/
+
+def strictlySorted : List String → Bool
+  | [] => true
+  | [_] => true
+  | a :: b :: rest => decide (a < b) && strictlySorted (b :: rest)
+
+def distinct : List String → Bool
+  | [] => true
+  | a :: rest => !rest.contains a && distinct rest
+
+mutual
+  def sortedNode : Node → Bool
+    | .file _ => true
+    | .dir es => strictlySorted (es.map Prod.fst) && sortedEs es
+  def sortedEs : List (Name × Node) → Bool
+    | [] => true
+    | (_, c) :: tl => sortedNode c && sortedEs tl
+end
+
+def projectOk (root : Entries) : Bool :=
+  distinct (root.map Prod.fst) &&
+  (match getE WS root with
+   | some (.dir jobs) => distinct (jobs.map Prod.fst) && sortedEs jobs
+   | _ => false)
+
 def renderErr : Option Err → String
   | none => "ok"
   | some (.fileConflict fn) => "FileSyncConflict:" ++ toHex fn
@@ -263,6 +289,7 @@ def step (line : String) : String :=
   | "sync" :: ts =>
     match parseLine ts with
     | some p =>
+      if !(projectOk p.src && projectOk p.dst) then "bad-value" else
       let a := answer p false
       let b := answer p true
       if a == b then a else "bad-value"
